@@ -128,6 +128,10 @@ macro_rules! shared_types {
             "tup_opt_arr" => $f::<(Option<u16>, [i8; 2], ())>($a),
             "opt_vec_opt" => $f::<Option<Vec<Option<u8>>>>($a), "opt_tup_opt" => $f::<Option<(Option<u8>, u8)>>($a),
             "opt_map_opt" => $f::<Option<BTreeMap<u8, Option<String>>>>($a), "vec_opt_vec_opt" => $f::<Vec<Option<Vec<Option<bool>>>>>($a),
+            // tuples / arrays whose LAST components can be nil (whatever a codec does about trailing nils, both sides must do it)
+            "tup_u8_opt" => $f::<(u8, Option<u8>)>($a), "tup_opt_opt" => $f::<(Option<u8>, Option<String>)>($a), "tup1_opt" => $f::<(Option<i64>,)>($a),
+            "vec_tup_opt" => $f::<Vec<(u8, Option<i8>)>>($a), "tup_unit_last" => $f::<(u8, ())>($a), "tup_nested_opt" => $f::<(u8, (u8, Option<bool>))>($a),
+            "map_tup_opt" => $f::<BTreeMap<u8, (bool, Option<u16>)>>($a),
             _ => $else
         }
     };
